@@ -46,7 +46,106 @@ trim_len!(trim_len6, 6);
 trim_len!(trim_len7, 7);
 trim_len!(trim_len8, 8);
 
+// ---------------------------------------------------------------------------------------------
+// C08: the single funnel for recoverable findings -- optional_error / check_version / error
+fn new_parser(strict: bool) -> ArxmlParser<'static> { ArxmlParser::new(PathBuf::new(), &[], strict) }
+
+fn pick_error(k: u8) -> ArxmlParserError {
+    match k % 4 {
+        0 => ArxmlParserError::AdditionalDataError,
+        1 => ArxmlParserError::InvalidArxmlFileHeader,
+        2 => ArxmlParserError::CharacterContentForbidden { element: ElementName::Autosar },
+        _ => ArxmlParserError::TooManySubElements { element: ElementName::Autosar, sub_element: ElementName::ArPackages },
+    }
+}
+fn same_error(k: u8, e: &ArxmlParserError) -> bool {
+    match (k % 4, e) {
+        (0, ArxmlParserError::AdditionalDataError) => true,
+        (1, ArxmlParserError::InvalidArxmlFileHeader) => true,
+        (2, ArxmlParserError::CharacterContentForbidden { element: ElementName::Autosar }) => true,
+        (3, ArxmlParserError::TooManySubElements { element: ElementName::Autosar, sub_element: ElementName::ArPackages }) => true,
+        _ => false,
+    }
+}
+fn is_parser_error(e: &AutosarDataError, k: u8, line: usize) -> bool {
+    match e { AutosarDataError::ParserError { line: l, source, .. } => *l == line && same_error(k, source), _ => false }
+}
+
+/// optional_error: strict => Err(exactly this error at the current line), warnings untouched;
+/// lenient => Ok(()) and warnings' == warnings ++ [this error at the current line]
+#[cfg_attr(kani, kani::proof)]
+#[cfg_attr(kani, kani::unwind(4))]
+pub fn funnel_optional_error() {
+    let strict = any_bool();
+    let line = any_usize();
+    let k = any_u8();
+    let mut p = new_parser(strict);
+    p.line = line;
+    let n0 = p.warnings.len();
+    let r = p.optional_error(pick_error(k));
+    if strict {
+        match r { Err(e) => assert!(is_parser_error(&e, k, line), "strict: optional_error must return exactly the given error with the current line"), Ok(()) => assert!(false, "strict: a recoverable finding was swallowed") }
+        assert!(p.warnings.len() == n0, "strict: warnings must not change");
+    } else {
+        assert!(r.is_ok(), "lenient: optional_error must not fail");
+        assert!(p.warnings.len() == n0 + 1, "lenient: exactly one warning must be recorded");
+        assert!(is_parser_error(&p.warnings[n0], k, line), "lenient: the recorded warning must be the given error with the current line");
+    }
+    assert!(p.strict == strict && p.line == line, "the funnel must not change the mode or the line");
+    cover!(strict, "strict");
+    cover!(!strict, "lenient");
+}
+
+/// error(): hard errors carry the error and the current line and never depend on the mode
+#[cfg_attr(kani, kani::proof)]
+pub fn funnel_error() {
+    let strict = any_bool();
+    let line = any_usize();
+    let k = any_u8();
+    let mut p = new_parser(strict);
+    p.line = line;
+    let e = p.error(pick_error(k));
+    assert!(is_parser_error(&e, k, line), "error() must wrap the given error with the current line");
+    assert!(p.warnings.is_empty(), "error() must not record a warning");
+}
+
+/// check_version: raises through the funnel exactly when the file version is not in the mask, and always
+/// narrows version_compatibility by the mask (all u32 masks, all declared versions, both modes)
+#[cfg_attr(kani, kani::proof)]
+#[cfg_attr(kani, kani::unwind(4))]
+pub fn funnel_check_version() {
+    let strict = any_bool();
+    let mask = any_u32();
+    let compat0 = any_u32();
+    let k = any_u8();
+    let vi = any_usize();
+    assume(vi < ALL_VERSIONS.len());
+    let v = ALL_VERSIONS[vi];
+    let mut p = new_parser(strict);
+    p.fileversion = v;
+    p.version_compatibility = compat0;
+    let line = any_usize();
+    p.line = line;
+    let r = p.check_version(mask, pick_error(k));
+    assert!(p.version_compatibility == compat0 & mask, "check_version must narrow version_compatibility by the item mask");
+    let finding = (v as u32) & mask == 0;
+    if !finding {
+        assert!(r.is_ok() && p.warnings.is_empty(), "no finding when the file version is in the mask");
+    } else if strict {
+        match r { Err(e) => assert!(is_parser_error(&e, k, line), "strict: version finding must be returned as the given error"), Ok(()) => assert!(false, "strict: version finding swallowed") }
+        assert!(p.warnings.is_empty(), "strict: no warning");
+    } else {
+        assert!(r.is_ok() && p.warnings.len() == 1 && is_parser_error(&p.warnings[0], k, line), "lenient: version finding must be recorded as the given warning");
+    }
+    assert!(p.fileversion == v && p.strict == strict, "check_version must not change version or mode");
+    cover!(finding && strict, "strict finding");
+    cover!(finding && !strict, "lenient finding");
+    cover!(!finding, "no finding");
+}
+
+include!(concat!(env!("VX_GEN_DIR"), "/versions_main.rs"));
+
 vk_dispatch! {
-    harnesses: [trim_len0, trim_len1, trim_len2, trim_len3, trim_len4, trim_len5, trim_len6, trim_len7, trim_len8];
+    harnesses: [funnel_optional_error, funnel_error, funnel_check_version, trim_len0, trim_len1, trim_len2, trim_len3, trim_len4, trim_len5, trim_len6, trim_len7, trim_len8];
     checks: [trim => check_trim];
 }
